@@ -31,6 +31,9 @@ def run_worker(pid, tier, case, timeout_s, canary=None, replay=None):
         cmd += ["--replay", replay]
     env = dict(os.environ)
     env["PYTHONPATH"] = ROOT
+    if os.environ.get("SYMX_MICI_SRC"):
+        # development aid (seeded-change evaluation in a scratch worktree): analyse this source tree instead of /repo/src
+        env["PYTHONPATH"] = os.environ["SYMX_MICI_SRC"] + os.pathsep + ROOT
     env["PYTHONDONTWRITEBYTECODE"] = "1"
     env["PYTHONHASHSEED"] = "0"
     env.setdefault("MICI_VERIF", "1")
@@ -94,7 +97,8 @@ def main(argv=None):
     meta_json = subprocess.run(
         [PY, "-c", f"import json,sys; sys.path.insert(0,{ROOT!r}); import importlib; m=importlib.import_module('harness.{pid}');"
                    f"cs=m.cases({tier!r}); print({MARK!r}+json.dumps({{'cases':[[c.name,c.timeout_s,c.group] for c in cs],'meta':m.META}}))"],
-        capture_output=True, text=True, cwd=ROOT, env={**os.environ, "PYTHONPATH": ROOT, "PYTHONDONTWRITEBYTECODE": "1"})
+        capture_output=True, text=True, cwd=ROOT, env={**os.environ, "PYTHONPATH": (os.environ.get("SYMX_MICI_SRC", "") + os.pathsep + ROOT).lstrip(os.pathsep),
+                                                        "PYTHONDONTWRITEBYTECODE": "1"})
     line = [l for l in meta_json.stdout.splitlines() if l.startswith(MARK)]
     if not line:
         print("HARNESS-ERROR: cannot enumerate cases\n" + meta_json.stderr[-3000:])
